@@ -39,9 +39,11 @@ def obligations(ctx):
             functions=["deref"]),
         Obl("C07.bundle_ring_length.contract", "C07", P, entry="h_bundle_ring_length", enforce="bundle_ring_length",
             replace=["deref"], loops=True, defines={"RTOSC_C": inj}, termination=True, functions=["bundle_ring_length"]),
+        # deref is inlined here (its own contract is proved above): replacing its ~40 calls by the contract costs 2.5x the
+        # solver time for the same facts; bundle_ring_length is replaced by its contract
         Obl("C07.rtosc_message_ring_length.contract", "C07", P, entry="h_message_ring_length",
-            enforce="rtosc_message_ring_length", replace=["deref", "bundle_ring_length"], loops=True,
-            defines={"RTOSC_C": inj}, termination=True, functions=["rtosc_message_ring_length"]),
+            enforce="rtosc_message_ring_length", replace=["bundle_ring_length"], loops=True,
+            defines={"RTOSC_C": inj}, termination=True, functions=["rtosc_message_ring_length"], timeout=2400),
         Obl("C07.rtosc_message_length.contract", "C07", P, entry="h_message_length", enforce="rtosc_message_length",
             replace=["rtosc_message_ring_length"], defines={"RTOSC_C": inj}, functions=["rtosc_message_length"]),
         Obl("C07.rtosc_valid_message_p.contract", "C07", P, entry="h_valid_message_p", enforce="rtosc_valid_message_p",
